@@ -113,4 +113,5 @@ func (rs *GRPCReplicationServer) SendReplicationMessage(transactionGroup []byte)
 		verifhook.At("Repl.fanout.sent", ip)
 	}
 	rs.mu.RUnlock()
+	verifhook.At("Repl.fanout.done")
 }
